@@ -13,6 +13,7 @@ mod refchunk;
 mod fam_chunk;
 mod msgtext;
 mod fam_msg;
+mod fam_hs;
 
 #[global_allocator]
 static GLOBAL: alloc::Counting = alloc::Counting;
@@ -23,10 +24,11 @@ use std::panic::{catch_unwind, AssertUnwindSafe};
 pub struct State {
     dead: bool,
     chunk: fam_chunk::ChunkSt,
+    hs: fam_hs::HsSt,
 }
 
 impl Default for State {
-    fn default() -> Self { State { dead: false, chunk: fam_chunk::ChunkSt::new() } }
+    fn default() -> Self { State { dead: false, chunk: fam_chunk::ChunkSt::new(), hs: Default::default() } }
 }
 
 fn exec(st: &mut State, toks: &[&str]) -> String {
@@ -53,7 +55,10 @@ fn exec(st: &mut State, toks: &[&str]) -> String {
             Some(s) => s,
             None => match fam_msg::op(toks) {
                 Some(s) => s,
-                None => "bad-op".into(),
+                None => match fam_hs::op(&mut st.hs, toks) {
+                    Some(s) => s,
+                    None => "bad-op".into(),
+                },
             },
         },
     }
